@@ -1,21 +1,21 @@
 //! Ad-hoc experiments (not part of any registered check).
-use memvid_core::SketchSearchOptions;
+use memvid_core::{Memvid, PutOptions};
 fn main() {
-    let f = std::env::args().nth(1).unwrap();
-    let v: serde_json::Value = serde_json::from_slice(&std::fs::read(f).unwrap()).unwrap();
-    let c: vh::props::c09::Case = serde_json::from_value(v["case"].clone()).unwrap();
-    let word = vh::corpus::planted_word(c.word);
-    let b = vh::corpus::build("probe", &c.corpus).unwrap();
-    let mut mem = b.mem;
-    let frames = vh::corpus::all_frames(&mem);
-    println!("expected: {:?}", vh::corpus::frames_containing(&frames, &word));
-    for f in &frames { println!("frame {} role={:?} status={:?} parent={:?} st_len={:?} has={}", f.id, f.role, f.status, f.parent_id, f.search_text.as_ref().map(|s| s.len()), f.search_text.as_deref().map(|t| vh::corpus::contains_word(t,&word)).unwrap_or(false)); }
-    for ns in [true,false] {
-        let mut r = vh::corpus::request(&word, 3); r.no_sketch = ns;
-        let resp = mem.search(r).unwrap();
-        println!("no_sketch={ns}: total={} hits={:?} engine={:?}", resp.total_hits, resp.hits.iter().map(|h| (h.frame_id, h.range)).collect::<Vec<_>>(), resp.engine);
-    }
-    let cands = mem.find_sketch_candidates(&word, Some(SketchSearchOptions { hamming_threshold: 32, max_candidates: 500, min_score: 0.0 }));
-    println!("cands: {:?}", cands.iter().map(|c| (c.frame_id, c.hamming_distance)).collect::<Vec<_>>());
-    println!("sketch frames: {:?}", mem.sketches().iter().map(|e| e.frame_id).collect::<Vec<_>>());
+    let dir = vh::util::Scratch::new("probe");
+    let p = dir.path("a.mv2");
+    let mut m = Memvid::create(&p).unwrap();
+    println!("stats after create: lex_enabled={:?}", m.stats().map(|s| (s.lex_enabled, s.has_lex_index)));
+    let r = m.search(vh::corpus::request("hello", 3));
+    println!("search on empty: {:?}", r.map(|r| r.hits.len()));
+    let mut o = PutOptions::default();
+    o.timestamp = Some(1);
+    o.labels = vec!["blue".into()];
+    o.auto_tag = false; o.extract_dates = false; o.extract_triplets = false; o.extraction_budget_ms = 0;
+    println!("put: {:?}", m.put_bytes_with_options(b"kra1zto zq000x hello world", o));
+    println!("stats after put: lex_enabled={:?}", m.stats().map(|s| (s.lex_enabled, s.has_lex_index)));
+    let r = m.search(vh::corpus::request("zq000x", 3));
+    println!("search before commit: {:?}", r.map(|r| r.hits.iter().map(|h| h.frame_id).collect::<Vec<_>>()));
+    println!("commit: {:?}", m.commit());
+    let r = m.search(vh::corpus::request("zq000x", 3));
+    println!("search after commit: {:?}", r.map(|r| r.hits.iter().map(|h| h.frame_id).collect::<Vec<_>>()));
 }
